@@ -54,7 +54,7 @@ CONFIG = {
         'profiles': [('dropped', 30, 600), ('receive-history', 60, 1500), ('flows', 25, 600), ('receive-matrix', 100, 2000)],
         'rules': [(r'TX:ReceiveMessage', 'R', None), (ANY, 'S', r'^nonce '), (r'Q:UsedNonces?$', 'QR', None), (r'EXPORT', 'X', r'^nonce ')],
         'monitors': [M.mon_c02],
-        'level_text': 'Theorems over all histories of any length from any chain and all pairs in uint32 x uint64: at most one receive of a pair succeeds (none if the pair was already used), a used pair stays used under every transaction type, a pair is used only if the start state listed it or a receive of it succeeded, the store key is injective and decoded headers are in range. The Go keeper is tied to the model by differential execution of receive histories over colliding pools of pairs with retries after failures, attester rotation, pausing and re-linking; the at-most-once monitor runs on the implementation trace.',
+        'level_text': 'Theorems over all histories of any length from any chain and all pairs in uint32 x uint64: at most one receive of a pair succeeds (none if the pair was already used), a used pair stays used under every transaction type, a pair is used only if the start state listed it or a receive of it succeeded, the pairs accepted along a history are pairwise distinct, were all free at its start and are all used at its end, the store key is injective and decoded headers are in range. The Go keeper is tied to the model by differential execution of receive histories over colliding pools of pairs with retries after failures, attester rotation, pausing and re-linking; the at-most-once monitor runs on the implementation trace.',
     },
     'C03': {
         'profiles': [('receive-matrix', 150, 16384), ('flows', 20, 500), ('mint-values', 15, 400)],
@@ -116,7 +116,7 @@ CONFIG = {
                   (ANY, 'S', r'^num name=nextnonce'), (r'Q:NextAvailableNonce', 'QR', None),
                   (r'TX:(SendMessage|SendMessageWithCaller|DepositForBurn|DepositForBurnWithCaller|ReplaceMessage|ReplaceDepositForBurn)$', 'E', r'MessageSent')],
         'monitors': [M.mon_c07],
-        'level_text': 'Theorems: a successful producer returns the counter value it found, emits a message carrying that nonce and advances the counter by one; every other transaction (failed attempts, replacements, all other types) leaves the counter alone; along every history the counter equals start + number of successes mod 2^64; replacements re-emit the original nonce. The Go keeper is tied to the model by differential execution of interleaved sends, deposits, replacements and failures from several starting counters (absent, 0, random, 2^64-2).',
+        'level_text': 'Theorems: a successful producer returns the counter value it found, emits a message carrying that nonce and advances the counter by one; every other transaction (failed attempts, replacements, all other types) leaves the counter alone; along every history the counter equals start + number of successes mod 2^64, and the nonces answered by the producing transactions of the history, in order, are the consecutive uint64 values from the starting counter, one per success, pairwise distinct until 2^64 have been handed out; replacements re-emit the original nonce. The Go keeper is tied to the model by differential execution of interleaved sends, deposits, replacements and failures from several starting counters (absent, 0, random, 2^64-2).',
         'assumptions': ['the uint64 wrap after 2^64 - start successful sends is the code\'s arithmetic and is written into the model (mod 2^64); it is not treated as a finding'],
     },
     'C17': {
@@ -162,7 +162,7 @@ CONFIG = {
         'profiles': [('dropped', 30, 600), ('roles-lifecycle', 60, 1500), ('roles-matrix', 60, 324)],
         'rules': [(ANY, 'S', r'^role '), (ROLE_TX_RE, 'R', None), (ROLE_TX_RE, 'E', None), (r'Q:Roles', 'QR', None)],
         'monitors': [M.mon_c11],
-        'level_text': 'Theorem: for every transaction of every type by every submitter, accepted or not, the five role slots move exactly as the lifecycle automaton (Spec/Lifecycle.v) says, and therefore along every history; supersession, no replay of an acceptance, ownership only by acceptance of the pending owner, other roles only by the owner\'s update and only to valid addresses are proved on the automaton. The Go handlers are tied to the model by differential execution of role histories with valid, malformed, wrong-prefix, empty and upper-case new holders, interleaved with every other transaction type. Tied to the Go source twice: by TRANSLATION (tools/goextract reads the handler(s) from /repo on every run and emits Gallina programs; the theorem file proves they equal the model handlers for every request and state wherever the model gives a verdict - evidence lists which functions were translated on this run and which, if any, the translator could not read) and by differential execution.',
+        'level_text': 'Theorem: for every transaction of every type by every submitter, accepted or not, the five role slots move exactly as the lifecycle automaton (Spec/Lifecycle.v) says, and therefore along every history; supersession, no replay of an acceptance, ownership only by acceptance of the pending owner, other roles only by the owner\'s update and only to valid addresses are proved on the automaton. The Go handlers are tied to the model by differential execution of role histories with valid, malformed, wrong-prefix, empty, upper-case and decorated-valid (white space, NUL, 0x, doubled, truncated) new holders, interleaved with every other transaction type. Tied to the Go source twice: by TRANSLATION (tools/goextract reads the handler(s) from /repo on every run and emits Gallina programs; the theorem file proves they equal the model handlers for every request and state wherever the model gives a verdict - evidence lists which functions were translated on this run and which, if any, the translator could not read) and by differential execution.',
     },
     'C13': {
         'profiles': [('dropped', 30, 600), ('attester-closure', 100, 1000), ('admin-random', 30, 600)],
